@@ -7,8 +7,8 @@ SPEC = dict(
     harness=['h_seq.c'],
     # second configuration: counts/capacities near the top of the index type against a ledger allocator (harness/h_huge.c)
     configs=lambda tier: [dict(name='default'), dict(name='huge', harness=['h_huge.c'], hflags=['-DVF_HUGE=4'], nworkers=2),
-                          dict(name='clang', libcc='clang', nworkers=4, of=8)],  # library compiled by clang: half of the cases
-    parallel_configs=3,
+                          dict(name='clang', libcc='clang', nworkers=4, of=8), dict(name='o2', libflavour='san-o2', libdrop=['-fno-strict-aliasing'], nworkers=4, of=8)],  # library compiled by clang: half of the cases
+    parallel_configs=4,
     level='exploration',
     memcheck_cases={'thorough': 1600},
     rule='SMALL case class: seeded histories of 30-80 operations on two vectors or two fixed buffers (element sizes 0,1,2,3,4,7,8,12,16,24,33; buffer capacities 0..40; half of the containers live in caller-provided storage via ctor/dtor instead of new/die): '
